@@ -47,7 +47,7 @@ func selfArgs(out string, stub bool) []string {
 
 func checkC19(c *Ctx) error {
 	w := c.W
-	c.Rule = "self-hosting fixpoint replay: generation g regenerates internal/gontainer/gontainer.go with the tool built from generation g-1 (g=0: the checked-in file), compared byte for byte modulo the `// gontainer version:` line; each (generation, repetition) comparison is one case, distinct by (generation, repetition)"
+	c.Rule = "self-hosting fixpoint replay: generation g regenerates internal/gontainer/gontainer.go with the tool built from generation g-1 (g=0: the checked-in file), compared byte for byte modulo the `// gontainer version:` line; generation 0 runs an unstamped build, generations 1 and 2 are rebuilt with the Makefile's ldflags stamps (clean, then dirty tree); regeneration happens in place like `make self-compile`; each (generation, repetition) comparison is one case, distinct by (generation, repetition)"
 	c.Assumptions = []string{"Makefile self-compile arguments are the intended self configuration", "go build of the scratch copy is faithful to /repo's working tree"}
 	gens := 3
 	reps := c.Pick(2, 10)
@@ -93,7 +93,15 @@ func checkC19(c *Ctx) error {
 			return err
 		}
 		nb := filepath.Join(w.Dir, "bin", fmt.Sprintf("gontainer-gen%d", g+1))
-		if err := w.BuildTool(nb, "", "", false); err != nil {
+		// rebuilt the way `make build` does (ldflags stamps); the regenerated tree is what a developer's checkout would be: dirty
+		ld := ""
+		switch g {
+		case 0:
+			ld = "-X main.date=2026-01-02T03:04:05Z -X main.commit=0123456789abcdef0123456789abcdef01234567 -X main.version=dev-main -X main.isGitDirty=false -X main.builtBy=make4.3"
+		case 1:
+			ld = "-X main.date=2026-01-02T03:04:05Z -X main.commit=0123456789abcdef0123456789abcdef01234567 -X main.version=dev-main -X main.isGitDirty=true -X main.builtBy=make4.3"
+		}
+		if err := w.BuildTool(nb, ld, "", false); err != nil {
 			c.Violate(fmt.Sprintf("gen%d-does-not-build", g+1), "the tool does not build with its regenerated container:\n"+err.Error(), map[string]string{"regenerated.go": string(last)})
 			return nil
 		}
